@@ -38,6 +38,23 @@ CHECKS["C16"] = dict(
          "cells, raw cells and absent cells, two raw-cell files).",
     design="4 C16")
 
+CHECKS["C11"] = dict(
+    level="model_checking",
+    technique="TLA+ spec Repetition.tla (offset bags, extrema, structural transform) checked by "
+              "TLC over an enumerated scope; every enumerated case replayed on gdstk's Repetition "
+              "and on apply_repetition of all five element kinds; results validated by TLC",
+    text="TLC enumerates every repetition value of the scope (5 kinds, counts 0..3, spacings and "
+         "lattice vectors of either sign incl. collinear ones, explicit lists with duplicates and "
+         "zeros) x 36 lattice transforms, proves count = |offsets|, extrema span the offsets, and "
+         "that the structural transform maps every vector linearly; each case is executed on the "
+         "real code (count, offsets, extrema, copy, transform, apply on polygon / 2-element "
+         "FlexPath / RobustPath / label / reference with properties) and the logged results are "
+         "validated against the same operators.",
+    note="Trusted: TLC, the harness's 'otherwise identical' comparison of copies (outline after "
+         "de-duplicating doubled vertices, tags, properties). A count of 0 columns/rows is read as "
+         "the empty lattice (no zero vector demanded). Exactness: integer lattice, Q = 10.",
+    design="4 C11")
+
 NOT_YET = {}
 
 
